@@ -412,37 +412,21 @@ theorem tamper_not_delivered {W WC} (ci : Cipher W WC) (hl : Laws ci) (r : RecvF
     simp only at hc
     subst hc
     obtain ⟨ssrc, seq, body⟩ := f
-    cases body with
-    | plain b =>
-      cases remote with
-      | none => simp [readRTP] at h
-      | some s =>
-        by_cases hs : ssrc ≠ s
-        · simp [readRTP, hs] at h
-        · simp [readRTP, hs] at h
-    | prot w =>
-      have aux : ∀ x, (match c.decryptRTP ci ssrc seq w with
-            | none => ((x : RecvFmt), ReadRes.decodeError)
-            | some (c', p') => ({ x with inCtx := some c' }, .deliver p')) = (r', .deliver p) →
-          ∃ roc, w = ci.E c.key c.mki ssrc roc seq p := by
-        intro x hx
+    unfold readRTP at h
+    by_cases hw : wrongSSRC { inCtx := some c, remoteSSRC := remote } ssrc = true
+    · simp [hw] at h
+    · simp only [hw, Bool.false_eq_true, if_false] at h
+      cases body with
+      | plain b => simp at h
+      | prot w =>
+        simp only at h
         cases hd : c.decryptRTP ci ssrc seq w with
-        | none => simp [hd] at hx
+        | none => simp [hd] at h
         | some cp =>
           obtain ⟨c', p'⟩ := cp
-          simp only [hd, Prod.mk.injEq, ReadRes.deliver.injEq] at hx
-          obtain ⟨_, rfl⟩ := hx
-          exact decrypt_sound ci hl.auth c c' ssrc seq w p' hd
-      cases remote with
-      | none =>
-        simp only [readRTP] at h
-        obtain ⟨roc, e⟩ := aux _ h
-        exact ⟨roc, by rw [e]⟩
-      | some s =>
-        by_cases hs : ssrc ≠ s
-        · simp [readRTP, hs] at h
-        · simp only [readRTP, hs, Option.isSome_some, and_false, if_false] at h
-          obtain ⟨roc, e⟩ := aux _ h
+          simp only [hd, Prod.mk.injEq, ReadRes.deliver.injEq] at h
+          obtain ⟨_, rfl⟩ := h
+          obtain ⟨roc, e⟩ := decrypt_sound ci hl.auth c c' ssrc seq w p' hd
           exact ⟨roc, by rw [e]⟩
   refine ⟨key, ?_⟩
   intro hne
@@ -465,6 +449,32 @@ theorem tamper_not_delivered_rtcp {W WC} (ci : Cipher W WC) (hl : Laws ci) (c : 
       subst h
       obtain ⟨s, i, e⟩ := hl.auth_c _ _ _ _ hd
       exact ⟨s, i, by rw [e]⟩
+
+/-- **rejected_frame_leaves_no_trace.**  A frame that is rejected (altered, forged, wrong SSRC, plain)
+changes nothing in the receiver — neither the SRTP context nor the remote-SSRC latch — so whatever
+an adversary injects, the genuine packets that follow are treated exactly as if it had never
+arrived.  (True since the repair 568f759: the SSRC of the first packet used to be stored BEFORE
+authentication, and one altered first packet silenced the format for the rest of the session.) -/
+theorem rejected_frame_leaves_no_trace {W WC} (ci : Cipher W WC) (r : RecvFmt) (f : Frame W)
+    (h : (readRTP ci r f).2 = .decodeError) : (readRTP ci r f).1 = r :=
+  readRTP_reject_no_trace ci r f h
+
+/-- … in particular a forged first frame cannot stop the stream: after ANY rejected frames the
+receiver still delivers the whole genuine history. -/
+theorem forged_frames_do_not_stop_the_stream {W WC} (ci : Cipher W WC) (hl : Laws ci) (c : Ctx) (ssrc : Nat)
+    (forged : List (Frame W)) (arr : List (Nat × Bytes))
+    (hforged : ∀ r, ∀ f ∈ forged, (readRTP ci r f).2 = .decodeError)
+    (h : FitsAll (c.state ssrc) (arr.map (·.1))) :
+    (recvAll ci { inCtx := some c } (forged ++ arr.map (frameOf ci c.key c.mki ssrc))).2 =
+      forged.map (fun _ => ReadRes.decodeError) ++ arr.map (fun jp => ReadRes.deliver jp.2) := by
+  induction forged with
+  | nil => simpa using receiver_delivers ci hl.dec_enc c none ssrc (Or.inl rfl) arr h
+  | cons f rest ih =>
+    have hf := hforged { inCtx := some c } f List.mem_cons_self
+    have hr := readRTP_reject_no_trace ci { inCtx := some c } f hf
+    have := ih (fun r g hg => hforged r g (List.mem_cons_of_mem _ hg))
+    simp only [List.cons_append, recvAll, List.map_cons]
+    rw [hr, hf, this]
 
 /-- **delivered_only_authentic.**  Over ANY sequence of frames (an adversary may inject, alter,
 reorder, replay at will): every payload a receiver with a context hands to the application is the
